@@ -337,3 +337,19 @@ func CancelWhenIdle() context.Context {
 	}()
 	return ctx
 }
+
+// RecvWithin receives from ch within ms milliseconds (symbolically: pending ghost timers expire until one delivers).
+func RecvWithin(ch interface{}, ms int) (interface{}, bool) {
+	cases := []reflect.SelectCase{
+		{Dir: reflect.SelectRecv, Chan: reflect.ValueOf(ch)},
+		{Dir: reflect.SelectRecv, Chan: reflect.ValueOf(time.After(time.Duration(ms) * time.Millisecond))},
+	}
+	i, v, ok := reflect.Select(cases)
+	if i == 0 && ok {
+		return v.Interface(), true
+	}
+	return nil, false
+}
+
+// TimersExpire lets every armed (millisecond-scale) timer fire while nobody reads its channel.
+func TimersExpire() { time.Sleep(60 * time.Millisecond) }
